@@ -160,40 +160,152 @@ def extract(ctx):
 
 # ---------------------------------------------------------------- EOP configurations
 
+LEAP = [(41317, 10.0), (41499, 11.0), (41683, 12.0), (42048, 13.0), (42413, 14.0), (42778, 15.0), (43144, 16.0), (43509, 17.0), (43874, 18.0), (44239, 19.0),
+        (44786, 20.0), (45151, 21.0), (45516, 22.0), (46247, 23.0), (47161, 24.0), (47892, 25.0), (48257, 26.0), (48804, 27.0), (49169, 28.0), (49534, 29.0),
+        (50083, 30.0), (50630, 31.0), (51179, 32.0), (53736, 33.0), (54832, 34.0), (56109, 35.0), (57204, 36.0), (57754, 37.0)]
+EOP_FIELDS = ("x", "y", "dx", "dy", "deps", "dpsi", "lod", "ut1_utc", "tai_utc")
+VALLADO = dict(x=-0.140682, y=0.333309, dpsi=-52.195, deps=-3.875, dx=-0.205, dy=-0.136, lod=1.5563, ut1_utc=-0.4399619)   # Vallado ex. 3-15
+MODES = ("real", "zero", "missing", "altdb", "patched")
 _real_db = {}
+_rows = {}
+_orig_get = []
+
+
+def indep_leap(mjd):
+    """TAI-UTC (s) from the leap second table written here"""
+    return [v for m, v in LEAP if m <= mjd][-1]
+
+
+def indep_rows():
+    """finals.all / finals2000A.all parsed by the IERS readme columns (1-based), independently of beyond/dates/eop.py"""
+    if not _rows:
+        folder = os.path.join(core.REPO, "tests", "data", "pole")
+        for fn, d1, d2 in (("finals.all", "dpsi", "deps"), ("finals2000A.all", "dx", "dy")):
+            for line in open(os.path.join(folder, fn), encoding="ascii"):
+                mjd = int(float(line[7:15]))
+
+                def col(a, b):
+                    t = line[a - 1:b].strip()
+                    return float(t) if t else None
+                r = _rows.setdefault(mjd, {})
+                r.update({"x": col(19, 27), "y": col(38, 46), "ut1_utc": col(59, 68), "lod": col(80, 86), d1: col(98, 106), d2: col(117, 125)})
+    return _rows
+
+
+def alt_transform(r, tai):
+    """the record the second database ('c02alt') serves for a day whose IERS record is r: every field differs from the 'real' one"""
+    return dict(x=r["y"], y=r["x"], dx=-r["dx"], dy=-r["dy"] + 0.1, dpsi=-r["dpsi"], deps=r["deps"] + 2.0, lod=r["lod"] + 0.7,
+                ut1_utc=round(-0.5 * r["ut1_utc"] - 0.1, 7), tai_utc=tai)
+
+
+def indep_record(mode, mjd):
+    """The EOP record configuration `mode` attaches to a date whose UTC day is int(mjd), from sources independent of the
+    library's readers (own column parse, own leap second table).  None = not known independently (outside 1973-2017)."""
+    zero = dict(x=0.0, y=0.0, dx=0.0, dy=0.0, deps=0.0, dpsi=0.0, lod=0.0, ut1_utc=0.0)
+    if mode == "missing":
+        return dict(zero, tai_utc=0.0)
+    if not (MJD_MIN <= int(mjd) < MJD_MAX):
+        return None
+    tai = indep_leap(mjd)
+    if mode == "zero":
+        return dict(zero, tai_utc=tai)
+    if mode == "patched":
+        return dict(VALLADO, tai_utc=tai)
+    r = indep_rows().get(int(mjd))
+    if r is None or len(r) < 8 or any(v is None for v in r.values()):
+        return None
+    if mode == "real":
+        return dict(r, tai_utc=tai)
+    if mode == "altdb":
+        return alt_transform(r, tai)
+    raise ValueError(mode)
 
 
 def set_eop(mode):
-    """real: tests/data/pole through SimpleEopDatabase; zero: all parameters 0 but TAI-UTC from tai-utc.dat;
-    missing: the database cannot be instantiated, policy 'pass' (what a fresh installation does)"""
+    """Five ways a process can be configured (no cache of the library is touched here: a conversion must follow the record of the
+    date at hand whatever was computed before):
+    real: tests/data/pole through the library's own SimpleEopDatabase (dbname 'default');
+    zero: a database whose records are all 0 but TAI-UTC;
+    missing: the database cannot be instantiated, policy 'pass' (what a fresh installation does): all 0, TAI-UTC = 0;
+    altdb: config eop.dbname names a second registered database ('c02alt') serving other values for the same days;
+    patched: EopDb.get itself replaced (what the library's test-suite does), one fixed record (Vallado ex. 3-15) for every day"""
     from beyond.config import config
-    from beyond.dates.eop import EopDb, SimpleEopDatabase, Eop, TaiUtc
-    from beyond.frames import iau1980
-    # _nutation is memoized on str(date): the TT instant of a UTC string depends on TAI-UTC, i.e. on the EOP source
-    iau1980._nutation._cache.clear()
+    from beyond.dates.eop import EopDb, SimpleEopDatabase, Eop
+    if not _orig_get:
+        _orig_get.append(EopDb.__dict__["get"])
+    setattr(EopDb, "get", _orig_get[0])
     folder = os.path.join(core.REPO, "tests", "data", "pole")
     config.set("eop", "missing_policy", "pass")
     config.set("eop", "folder", folder)
     config.set("eop", "type", "all")
+    config.set("eop", "dbname", "default")
     EopDb._load_entry_points()
+    if "c02alt" not in EopDb._dbs:
+        class AltDb:
+            def __getitem__(self, mjd):
+                r = indep_record("altdb", mjd)
+                if r is None:
+                    raise KeyError(mjd)
+                return Eop(**r)
+        EopDb.register(AltDb, "c02alt")
     if mode == "real":
         if folder not in _real_db:
             _real_db[folder] = SimpleEopDatabase()
         EopDb._dbs["default"] = _real_db[folder]
     elif mode == "zero":
-        t = TaiUtc(os.path.join(folder, "tai-utc.dat"))
-
         class ZeroDb:
             def __getitem__(self, mjd):
-                return Eop(x=0, y=0, dx=0, dy=0, deps=0, dpsi=0, lod=0, ut1_utc=0, tai_utc=t[mjd])
+                return Eop(x=0, y=0, dx=0, dy=0, deps=0, dpsi=0, lod=0, ut1_utc=0, tai_utc=indep_leap(mjd))
         EopDb._dbs["default"] = ZeroDb()
     elif mode == "missing":
         class Broken:
             def __init__(self):
                 raise FileNotFoundError("no EOP files")
         EopDb._dbs["default"] = Broken
+    elif mode == "altdb":
+        if folder not in _real_db:
+            _real_db[folder] = SimpleEopDatabase()
+        EopDb._dbs["default"] = _real_db[folder]
+        config.set("eop", "dbname", "c02alt")
+    elif mode == "patched":
+        def get(cls, mjd, dbname=None):
+            return Eop(tai_utc=indep_leap(mjd), **VALLADO)
+        setattr(EopDb, "get", classmethod(get))
     else:
         raise ValueError(mode)
+
+
+T0 = None
+
+
+def pure_times(scale, d, s, rec):
+    """What the providers read from a date, computed from its TEXT (day d, seconds s in `scale`) and an EOP record only, with
+    python datetime arithmetic (microsecond resolution, like the library's Date): TT century, UT1 century, UT1 JD, day number,
+    and (UT1 day JD at 0h, UT1 seconds of day) for the independent sidereal formulas."""
+    from datetime import datetime, timedelta
+    t0 = datetime(1858, 11, 17)
+    dt = t0 + timedelta(days=d, seconds=s)
+    tai_utc, ut1_utc = rec["tai_utc"], rec["ut1_utc"]
+    if scale == "UTC":
+        to_tt, to_ut1 = 0 + tai_utc + 32.184, 0 + ut1_utc
+    elif scale == "TAI":
+        to_tt, to_ut1 = 0 + 32.184, 0 - tai_utc + ut1_utc
+    elif scale == "TT":
+        to_tt, to_ut1 = 0.0, 0 - 32.184 - tai_utc + ut1_utc
+    else:
+        raise ValueError(scale)
+
+    def jd(x):
+        delta = x - t0
+        return delta.days + (delta.seconds + delta.microseconds * 1e-6) / 86400.0 + 2400000.5
+    jd_tt, jd_ut1 = jd(dt + timedelta(seconds=to_tt)), jd(dt + timedelta(seconds=to_ut1))
+    ut1 = (dt + timedelta(seconds=to_ut1)) - t0
+    return {"ttt": (jd_tt - 2451545.0) / 36525.0, "tut1": (jd_ut1 - 2451545.0) / 36525.0, "jdut1": jd_ut1, "day": float(d),
+            "ut1_jd0": ut1.days + 2400000.5, "ut1_sec": ut1.seconds + ut1.microseconds * 1e-6}
+
+
+def rec_of(eop):
+    return {k: float(getattr(eop, k)) for k in EOP_FIELDS}
 
 
 # ---------------------------------------------------------------- frames used by the sweeps
@@ -212,13 +324,25 @@ def stations():
     return _stations
 
 
-def rand_date(rng, lo=MJD_MIN, hi=MJD_MAX):
-    from beyond.dates import Date
+# day numbers at which a branch of the anchored code switches (iau1980.equinox: kinematic terms from MJD 50506 = 1997-02-27 on)
+BRANCH_DAYS = (50506,)
+
+
+def rand_ds(rng, lo=MJD_MIN, hi=MJD_MAX):
+    """(day, seconds) of a UTC text: uniform over the tables, 15 % within +-5 years of a branch day (both sides, and the two days at it)"""
     d = rng.randrange(lo, hi)
+    if lo == MJD_MIN and hi == MJD_MAX and rng.random() < 0.15:
+        b = rng.choice(BRANCH_DAYS)
+        d = rng.choice([b - 1, b, rng.randrange(b - 1830, b), rng.randrange(b - 1830, b), rng.randrange(b, b + 1830)])
     s = round(rng.uniform(0, 86399.0), rng.choice([0, 3, 6]))
     if rng.random() < 0.1:
         s = rng.choice([0.0, 1.0, 43200.0, 86398.0])
-    return Date(d, s)
+    return d, s
+
+
+def rand_date(rng, lo=MJD_MIN, hi=MJD_MAX):
+    from beyond.dates import Date
+    return Date(*rand_ds(rng, lo, hi))
 
 
 def rand_kepl(rng):
@@ -414,6 +538,154 @@ def indep_precession(t):
     ])
 
 
+def indep_nut80(ttt, rows):
+    """IAU-1980 nutation from the fundamental arguments as published (arcseconds; Seidelmann 1992, IERS TN 21) and the rows of tab5.1
+    parsed here: (mean obliquity rad, dpsi rad, deps rad, Omega of the kinematic terms rad)"""
+    r, T = 1296000.0, ttt
+    l = 485866.733 + (1325 * r + 715922.633) * T + 31.310 * T * T + 0.064 * T ** 3
+    lp = 1287099.804 + (99 * r + 1292581.224) * T - 0.577 * T * T - 0.012 * T ** 3
+    F = 335778.877 + (1342 * r + 295263.137) * T - 13.257 * T * T + 0.011 * T ** 3
+    D = 1072261.307 + (1236 * r + 1105601.328) * T - 6.891 * T * T + 0.019 * T ** 3
+    Om = 450160.280 - (5 * r + 482890.539) * T + 7.455 * T * T + 0.008 * T ** 3
+    fa = [math.fmod(x, r) * ARCSEC for x in (l, lp, F, D, Om)]
+    dpsi = deps = 0.0
+    for row in rows:
+        arg = sum(a * f for a, f in zip(row[:5], fa))
+        dpsi += (row[5] + row[6] * T) * math.sin(arg)
+        deps += (row[7] + row[8] * T) * math.cos(arg)
+    eps0 = (84381.448 - 46.8150 * T - 0.00059 * T * T + 0.001813 * T ** 3) * ARCSEC
+    om03 = math.fmod(450160.398036 - 6962890.2665 * T + 7.4722 * T * T + 0.007702 * T ** 3, r) * ARCSEC   # IERS 1996/2003 node
+    return eps0, dpsi * 1e-4 * ARCSEC, deps * 1e-4 * ARCSEC, om03
+
+
+def indep_eqeq(ttt, rows, utc_day, kinematic=True):
+    """equation of the equinoxes (rad): dpsi cos(eps) + [from 1997-02-27 0h UTC = MJD 50506 on] 0.00264" sin Om + 0.000063" sin 2 Om (IERS TN 21)"""
+    eps0, dpsi, _, om = indep_nut80(ttt, rows)
+    eq = dpsi * math.cos(eps0)
+    if kinematic and utc_day >= 50506:
+        eq += (0.00264 * math.sin(om) + 0.000063 * math.sin(2 * om)) * ARCSEC
+    return eq
+
+
+def R1(t):
+    import numpy as np
+    c, s = math.cos(t), math.sin(t)
+    return np.array([[1, 0, 0], [0, c, s], [0, -s, c]])
+
+
+def R2(t):
+    import numpy as np
+    c, s = math.cos(t), math.sin(t)
+    return np.array([[c, 0, -s], [0, 1, 0], [s, 0, c]])
+
+
+def R3(t):
+    import numpy as np
+    c, s = math.cos(t), math.sin(t)
+    return np.array([[c, s, 0], [-s, c, 0], [0, 0, 1]])
+
+
+def wrap(x):
+    return (x + math.pi) % (2 * math.pi) - math.pi
+
+
+_t51 = []
+
+
+def earth_rotation_checks(out, mode, scale, d, s, date, rec, via, after=None):
+    """The clause "the Earth-fixed <-> inertial rotation agrees with independently computed sidereal time, Earth-rotation angle and
+    precession", for the date AT HAND: every expected value is computed here from the text of the date (d, s, scale) and the EOP record
+    `rec` of the CURRENT configuration, known independently of the library (UT1 = UTC + ut1_utc, TT = UTC + tai_utc + 32.184 s) — never
+    from date.eop, date.change_scale or a helper of beyond.frames.
+    via = 'matrix': Orientation.convert_to;  via = 'state': StateVector.copy(frame=...) of three basis states (what a user calls).
+    after: the configurations under which this very instant was converted earlier in the process (None = first use of the instant)."""
+    import numpy as np
+    from beyond.frames.frames import get_frame
+    from beyond.orbits import StateVector
+    if not _t51:
+        _t51.extend(parse_tab51())
+    t = pure_times(scale, d, s, rec)
+    hist = "" if not after else ":after-other-configuration"
+    inp = {"eop": mode, "date": f"Date({d}, {s!r}, scale='{scale}')", "record": rec, "via": via}
+    if after:
+        inp["converted_before_under"] = list(after)
+    tag = dict(eop=mode, via=via, scale=scale, history="revisit" if after else "first")
+    # the record attached to the date is the one of the current configuration
+    out.count(key=("eoprec", mode, scale, d, s), kind="eop-of-configuration", **tag)
+    for k in EOP_FIELDS:
+        if float(getattr(date.eop, k)) != rec[k]:
+            out.fail(f"eop-of-configuration:{mode}:{k}{hist}", f"date.eop.{k} is not the value of the configured EOP source for that day", inp, observed=float(getattr(date.eop, k)), expected=rec[k])
+
+    def blocks(a, b):
+        if via == "matrix":
+            m = get_frame(a).orientation.convert_to(date, get_frame(b).orientation)
+            return m[:3, :3], m[3:, :3]
+        cols = [np.array(StateVector([7e6 * (i == 0), 7e6 * (i == 1), 7e6 * (i == 2), 0, 0, 0], date, "cartesian", a).copy(frame=b)) / 7e6 for i in range(3)]
+        return np.array([c[:3] for c in cols]).T, np.array([c[3:] for c in cols]).T
+
+    w = 7.292115146706979e-5 * (1 - rec["lod"] / 1000.0 / 86400.0)
+    wx = np.array([[0, -w, 0], [w, 0, 0], [0, 0, 0]])
+    eq = indep_eqeq(t["ttt"], _t51, int(t["day"]))
+    for a, b, name, expected in (("PEF", "TOD", "sidereal-independent", indep_gmst82(t["ut1_jd0"], t["ut1_sec"]) + eq),
+                                 ("TIRF", "CIRF", "era-independent", indep_era(t["ut1_jd0"], t["ut1_sec"]))):
+        r, bl = blocks(a, b)
+        ang = math.atan2(r[1, 0], r[0, 0])
+        out.count(key=(name, mode, scale, d, s, via), kind=name, **tag)
+        if not abs(wrap(ang - expected)) <= 1e-3 * ARCSEC + (0 if via == "matrix" else 1e-12):   # 1 mas; jd is one double: 1.7e-9 rad of rounding
+            out.fail(name + hist, f"{a}->{b} rotation angle differs from the sidereal time / Earth rotation angle computed independently from UT1 = {scale} text + offsets of the record of the date",
+                     inp, observed=float(ang % (2 * math.pi)), expected=float(expected % (2 * math.pi)))
+        out.count(key=("rate", a, mode, scale, d, s, via), kind="rate-block", **tag)
+        if np.abs(bl - wx @ r).max() > 1e-15 + (0 if via == "matrix" else 1e-13):
+            out.fail(f"rate-block:{a}>{b}{hist}", f"{a}->{b} velocity coupling is not +w x R r with w = w_earth (1 - lod/86400 s) of the record of the date", inp, observed=bl.tolist(), expected=(wx @ r).tolist())
+    xp, yp = rec["x"] * ARCSEC, rec["y"] * ARCSEC
+    sp = -0.000047 * t["ttt"] * ARCSEC
+    eps0, dpsi, deps, _ = indep_nut80(t["ttt"], _t51)
+    eq4 = indep_eqeq(t["ttt"], _t51[:4], int(t["day"]), kinematic=False)
+    for a, b, name, exp, tol in (("ITRF", "PEF", "polar-motion-independent:1980", R1(yp) @ R2(xp), 1e-12),
+                                 ("ITRF", "TIRF", "polar-motion-independent:2010", R3(-sp) @ R2(xp) @ R1(yp), 1e-12),
+                                 ("TOD", "MOD", "nutation-independent", R1(-eps0) @ R3(dpsi) @ R1(eps0 + deps), 1e-9),
+                                 ("TEME", "TOD", "teme-equinox-independent", R3(-eq4), 1e-9),
+                                 ("MOD", "EME2000", "precession-independent", indep_precession(t["ttt"]), 1e-11)):
+        r, _ = blocks(a, b)
+        out.count(key=(name, mode, scale, d, s, via), kind=name.split(":")[0], **tag)
+        if not np.abs(r - exp).max() <= tol + (0 if via == "matrix" else 1e-12):
+            out.fail(name + hist, f"{a}->{b} differs from the matrix written here from the record / the text of the date", inp, observed=r.tolist(), expected=exp.tolist())
+    return t
+
+
+def history_oracle(out, rng, big):
+    """THE SAME instants under the five configurations inside one process, in varying orders, each (configuration, instant) visited more
+    than once, through StateVector.copy(frame=...): whatever was converted before, the rotation must be the one of the date at hand.
+    Two kinds of texts: UTC (the calendar text is the same, TAI-UTC is the same in 4 of the 5 configurations) and TAI (the text is the
+    same in all five; UT1 differs by up to 37 s between 'missing' and the others)."""
+    from beyond.dates import Date
+    for scale in ("UTC", "TAI"):
+        n_inst = 5 if big else 2
+        insts = [(rng.randrange(MJD_MIN, MJD_MAX), round(rng.uniform(200, 86200), rng.choice([0, 3, 6]))) for _ in range(n_inst)]
+        if rng.random() < 0.5:
+            insts[0] = (rng.randrange(50506 - 1800, 50506), insts[0][1])
+        seen, held = {}, {}
+        for rnd in range(3 if big else 2):
+            order = list(MODES)
+            rng.shuffle(order)
+            for mode in order:
+                set_eop(mode)
+                sub = rng.sample(range(n_inst), rng.randint(max(1, n_inst - 1), n_inst))
+                sub.insert(rng.randrange(len(sub) + 1), rng.choice(sub))      # one instant twice under the same configuration
+                for i in sub:
+                    d, s_utc = insts[i]
+                    s = s_utc if scale == "UTC" else round(s_utc + indep_leap(d), 6)
+                    if (mode, i) in held and rng.random() < 0.3:
+                        date = held[(mode, i)]                                 # the Date object created at the earlier visit
+                    else:
+                        date = held[(mode, i)] = Date(d, s, scale=scale)
+                    rec = indep_record(mode, d + s_utc / 86400.0)
+                    after = [m for m in seen.get(i, []) if m != mode]
+                    earth_rotation_checks(out, mode, scale, d, s, date, rec, "state", after=after)
+                    seen.setdefault(i, []).append(mode)
+    set_eop("real")
+
+
 def rot_angle(m):
     import numpy as np
     c = (np.trace(m) - 1) / 2
@@ -452,11 +724,12 @@ def oracle(ctx, widened):
     sta = stations()
     bod = body_frames()
     scs = scenarios(rng, {n: i for i, n in enumerate(orient_names())})
-    for mode in ("real", "zero", "missing"):
+    for mode in MODES:
         set_eop(mode)
-        N = (400 if big else 40) if mode == "real" else (150 if big else 14)
+        N = (400 if big else 40) if mode == "real" else (150 if big else 14) if mode in ("zero", "missing") else (60 if big else 6)
         for _ in range(N):
-            date = rand_date(rng)
+            d_, s_ = rand_ds(rng)
+            date = Date(d_, s_)
             att, ref = attached_frames(rng, date)
             names = BUILTIN + list(sta) + list(att) + list(bod)
             weights = [3] * len(BUILTIN) + [2] * len(sta) + [2] * len(att) + [1] * len(bod)
@@ -543,42 +816,11 @@ def oracle(ctx, widened):
                     out.fail(fam, "converted velocity is not the time derivative of the converted position",
                              {"eop": mode, "date": str(date), "frame": b, "kepl": list(map(float, kepl)), "ref_kepl": list(map(float, ref.copy(form="keplerian")))},
                              observed=list(map(float, vel)), expected=list(map(float, fd)))
-            # ---- 4. Earth rotation angle / sidereal time / precession against independent formulas; 1980 vs 2010
-            ut1 = date.change_scale("UT1")
-            jd0, sec = ut1.d + 2400000.5, ut1.s
-            pef, tod, tirf, cirf = (get_frame(n).orientation for n in ("PEF", "TOD", "TIRF", "CIRF"))
-            m = pef.convert_to(date, tod)[:3, :3]     # rot3(-GAST)
-            gast = math.atan2(m[1, 0], m[0, 0]) % (2 * math.pi)
-            from beyond.frames import iau1980
-            eq = math.radians(iau1980.equinox(date, eop_correction=False))
-            gmst_i = indep_gmst82(jd0, sec)
-            out.count(key=("gmst", mode, str(date)), kind="sidereal-independent", eop=mode)
-            dg = (gast - eq - gmst_i + math.pi) % (2 * math.pi) - math.pi
-            if abs(dg) > 1e-8:   # 2 mas; jd quantisation alone is 3e-9 rad
-                out.fail("sidereal-independent", "PEF->TOD rotation angle minus equation of equinoxes differs from independently computed GMST82",
-                         {"eop": mode, "date": str(date)}, observed=float(gast - eq), expected=float(gmst_i))
-            m = tirf.convert_to(date, cirf)[:3, :3]
-            era = math.atan2(m[1, 0], m[0, 0]) % (2 * math.pi)
-            de = (era - indep_era(jd0, sec) + math.pi) % (2 * math.pi) - math.pi
-            out.count(key=("era", mode, str(date)), kind="era-independent", eop=mode)
-            if abs(de) > 1e-8:
-                out.fail("era-independent", "TIRF->CIRF rotation angle differs from independently computed Earth rotation angle", {"eop": mode, "date": str(date)},
-                         observed=float(era), expected=float(indep_era(jd0, sec)))
-            tt = date.change_scale("TT")
-            tcen = ((tt.d - 51544) - 0.5 + tt.s / 86400.0) / 36525.0
-            mp = get_frame("MOD").orientation.convert_to(date, get_frame("EME2000").orientation)[:3, :3]
-            out.count(key=("prec", mode, str(date)), kind="precession-independent", eop=mode)
-            if np.abs(mp - indep_precession(tcen)).max() > 1e-11:
-                out.fail("precession-independent", "MOD->EME2000 differs from the IAU-1976 precession matrix written entry by entry", {"eop": mode, "date": str(date)},
-                         observed=mp.tolist(), expected=indep_precession(tcen).tolist())
-            # rate vector: the velocity coupling block equals -[w]x R with w = (0,0,-w_earth(1-lod/86400))
-            m6 = pef.convert_to(date, tod)
-            w = 7.292115146706979e-5 * (1 - date.eop.lod / 1000.0 / 86400.0)
-            expB = np.array([[0, -w, 0], [w, 0, 0], [0, 0, 0]]) @ m6[:3, :3]
-            out.count(key=("rate", mode, str(date)), kind="rate-block", eop=mode)
-            if np.abs(m6[3:, :3] - expB).max() > 1e-15:
-                out.fail("rate-block", "PEF->TOD coupling block is not +w x R (v_inertial = R v + w x R r)", {"eop": mode, "date": str(date)},
-                         observed=m6[3:, :3].tolist(), expected=expB.tolist())
+            # ---- 4. Earth rotation angle / sidereal time / polar motion / nutation / precession / rate against independent formulas
+            #         evaluated with the EOP record of the current configuration (known independently of the library); 1980 vs 2010
+            rec = indep_record(mode, d_ + s_ / 86400.0)
+            if rec is not None:
+                earth_rotation_checks(out, mode, "UTC", d_, s_, date, rec, "matrix")
             if mode in ("real", "zero"):
                 g = get_frame("GCRF").orientation.convert_to(date, get_frame("EME2000").orientation)[:3, :3]
                 ang = rot_angle(g)
@@ -589,7 +831,9 @@ def oracle(ctx, widened):
         if mode == "real":
             eop_reader_oracle(out, rng, 300 if big else 60)
             offset_form_oracle(out, rng, 40 if big else 6)
-        attached_oracle(out, rng, scs, mode, 60 if big else 8)
+        if mode in ("real", "zero", "missing"):
+            attached_oracle(out, rng, scs, mode, 60 if big else 8)
+    history_oracle(out, rng, big)
     set_eop("real")
     out.sample({"checks": "A->B->C vs A->C, A->B->A, orthonormality/det/block form, |r| preserved, Richardson finite-difference velocity, GMST82/ERA/IAU76 precession vs independent formulas, 1980 vs 2010 chain, EOP file reader vs independent column parse"})
     return out
@@ -662,24 +906,12 @@ def offset_form_oracle(out, rng, n):
 def eop_reader_oracle(out, rng, n):
     """SimpleEopDatabase on the real IERS files against an independent parse of the same lines (IERS readme columns, 1-based)"""
     from beyond.dates.eop import EopDb
-    folder = os.path.join(core.REPO, "tests", "data", "pole")
-    rows = {}
-    for fn, d1, d2 in (("finals.all", "dpsi", "deps"), ("finals2000A.all", "dx", "dy")):
-        for line in open(os.path.join(folder, fn), encoding="ascii"):
-            mjd = int(float(line[7:15]))
-            def col(a, b):
-                s = line[a - 1:b].strip()
-                return float(s) if s else None
-            r = rows.setdefault(mjd, {})
-            r.update({"x": col(19, 27), "y": col(38, 46), "ut1_utc": col(59, 68), "lod": col(80, 86), d1: col(98, 106), d2: col(117, 125)})
-    leap = [(41317, 10.0), (41499, 11.0), (41683, 12.0), (42048, 13.0), (42413, 14.0), (42778, 15.0), (43144, 16.0), (43509, 17.0), (43874, 18.0), (44239, 19.0),
-            (44786, 20.0), (45151, 21.0), (45516, 22.0), (46247, 23.0), (47161, 24.0), (47892, 25.0), (48257, 26.0), (48804, 27.0), (49169, 28.0), (49534, 29.0),
-            (50083, 30.0), (50630, 31.0), (51179, 32.0), (53736, 33.0), (54832, 34.0), (56109, 35.0), (57204, 36.0), (57754, 37.0)]
+    rows = indep_rows()
     for _ in range(n):
         mjd = rng.randrange(MJD_MIN, MJD_MAX) + rng.random()
         e = EopDb.get(mjd)
         r = rows[int(mjd)]
-        tai = [v for m, v in leap if m <= mjd][-1]
+        tai = indep_leap(mjd)
         out.count(key=("eop", int(mjd)), kind="eop-reader")
         for k in ("x", "y", "ut1_utc", "lod", "dpsi", "deps", "dx", "dy"):
             if r[k] is not None and getattr(e, k) != r[k]:
